@@ -13,6 +13,7 @@ pub mod c10;
 pub mod c11;
 pub mod c12;
 pub mod c13;
+pub mod c16;
 pub mod c17;
 pub mod c14;
 pub mod c15;
@@ -42,6 +43,7 @@ pub fn dispatch(engine: &str, cfg: &Cfg) -> i32 {
         "c11" => c11::run(cfg),
         "c12" => c12::run(cfg),
         "c13" => c13::run(cfg),
+        "c16" => c16::run(cfg),
         "c17" => c17::run(cfg),
         "c14" => c14::run(cfg),
         "c15" => c15::run(cfg),
